@@ -78,7 +78,7 @@ var c08Sets = []c08Set{
 func c08Observe(b *hx.Built, c c08Call, order int, kb *ast.KnowledgeBase) string {
 	w := c08World(c.k, c.i)
 	if c.fetch {
-		nperm := len(hx.Perms(len(kb.RuleEntries)))
+		nperm := hx.NPerms(len(kb.RuleEntries))
 		ch := order
 		if ch >= nperm {
 			ch = nperm - 1
